@@ -163,6 +163,7 @@ func c08LifeWorker(args []string) int {
 	dir := args[0]
 	per, _ := strconv.Atoi(args[1])
 	cycles, _ := strconv.Atoi(args[2])
+	withSnapshot := len(args) > 3 && args[3] == "snap" // take a raft snapshot in the middle of each cycle's insertions
 	rh, ry := ref.NewHist(), ref.NewHyper()
 	total := 0
 	port := FreePort()
@@ -224,6 +225,13 @@ func c08LifeWorker(args []string) int {
 			}
 			total += k
 			i += k
+			if withSnapshot && i >= n/2 && i-k < n/2 {
+				if err := nd.N.VerifForceSnapshot(); err != nil {
+					fmt.Printf("LIFE-INFO cycle=%d forced snapshot: %v\n", cy, err)
+				} else {
+					fmt.Printf("LIFE-INFO cycle=%d raft snapshot taken after %d events\n", cy, total)
+				}
+			}
 		}
 		if total > 0 {
 			ev := []byte(fmt.Sprintf("life-%d-%d", 0, 0))
@@ -288,10 +296,11 @@ func RunC08(c *lib.Ctx) {
 	// (b) node lifecycles in child processes
 	type life struct {
 		per, cycles int
+		snap        bool
 	}
-	lifes := []life{{0, 2}, {1, 3}, {5, 3}, {40, 2}}
+	lifes := []life{{0, 2, false}, {1, 3, false}, {5, 3, false}, {40, 2, false}, {6, 3, true}, {30, 2, true}}
 	if c.Thorough() {
-		lifes = append(lifes, life{2, 6}, life{17, 4}, life{100, 3}, life{300, 2}, life{3, 8})
+		lifes = append(lifes, life{2, 6, false}, life{17, 4, false}, life{100, 3, false}, life{300, 2, false}, life{3, 8, false}, life{2, 4, true}, life{200, 3, true})
 	}
 	bin := os.Getenv("QV_BIN")
 	if bin == "" {
@@ -300,13 +309,18 @@ func RunC08(c *lib.Ctx) {
 	parallelN(len(lifes), 2, func(i int) {
 		lf := lifes[i]
 		id := fmt.Sprintf("life-%d-%d", lf.per, lf.cycles)
+		snapArg := "nosnap"
+		if lf.snap {
+			id += "-snap"
+			snapArg = "snap"
+		}
 		if c.Only != "" && c.Only != id {
 			return
 		}
 		dir := c.Dir(id)
 		outp := filepath.Join(dir, "child.out")
 		out, _ := os.Create(outp)
-		cmd := exec.Command(bin, "worker", "c08-life", filepath.Join(dir, "node"), fmt.Sprint(lf.per), fmt.Sprint(lf.cycles))
+		cmd := exec.Command(bin, "worker", "c08-life", filepath.Join(dir, "node"), fmt.Sprint(lf.per), fmt.Sprint(lf.cycles), snapArg)
 		cmd.Stdout, cmd.Stderr = out, out
 		if err := cmd.Start(); err != nil {
 			c.Inconclusive("cannot start child: " + err.Error())
@@ -341,6 +355,9 @@ func RunC08(c *lib.Ctx) {
 			c.Violation("C08:node:"+word(firstLine(text, "LIFE-VIOLATION"), 1), fmt.Sprintf("lifecycle %s: %s", id, firstLine(text, "LIFE-VIOLATION")), detail)
 		case strings.Contains(text, "panic:") || strings.Contains(text, "fatal error:"):
 			c.Violation("C08:node:panic", fmt.Sprintf("lifecycle %s: the process panicked: %s", id, firstLine(text, "panic:", "fatal error:")), detail)
+		case code == 4 && strings.Contains(text, "LIFE-ERROR") && strings.Contains(firstLine(text, "LIFE-ERROR"), "start:") && !strings.Contains(firstLine(text, "LIFE-ERROR"), "cycle=0 "):
+			// the node was closed cleanly in the previous cycle and does not come back on the same data
+			c.Violation("C08:node:does-not-reopen", fmt.Sprintf("lifecycle %s: after a clean stop the node cannot be opened again on its data: %s", id, firstLine(text, "LIFE-ERROR")), detail)
 		case code == 3 || code == 4:
 			c.Inconclusive(fmt.Sprintf("lifecycle %s: %s", id, firstLine(text, "LIFE-INCONCLUSIVE", "LIFE-ERROR")))
 		case code != 0 || !strings.Contains(text, "LIFE-DONE"):
@@ -359,6 +376,10 @@ func RunC08(c *lib.Ctx) {
 				}
 			}
 			c.Count("node_lifecycles_completed", 1)
+			c.Count("raft_snapshots_taken_inside_lifecycles", int64(strings.Count(text, "raft snapshot taken")))
+			if lf.snap && !strings.Contains(text, "raft snapshot taken") {
+				c.Inconclusive(fmt.Sprintf("lifecycle %s: no raft snapshot could be taken between the insertions", id))
+			}
 			c.Count("node_close_cycles", int64(len(fds)))
 			c.Seen("fd_counts_after_close", fmt.Sprint(fds))
 			if len(fds) >= 2 && fds[len(fds)-1] > fds[0] {
